@@ -63,6 +63,7 @@ def run(ctx, rep, tier):
 
     # ------------------------------------------------------------ C02.a (ii) action templates that return early
     rep.rule("C02.a2", "an action template that returns OK (not finishing the parse) stores its resume state first")
+    rep.rule("C02.j", "a template that consumes the transition's byte itself before leaving for another state performs a complete consuming step")
     rep.rule("C02.d", "an action class whose feed-time template can return without finishing declares may_return_early() True; "
                       "needs_early_advance and _needs_end_check are computed from may_return_early() of the transition's actions")
     classes = [c for c in model.concrete_subclasses("Action") if c != "Action"]
@@ -83,8 +84,47 @@ def run(ctx, rep, tier):
                               extra={"lines": [i.text() for i in fp.lines(p)]})
                 if e.kind == "RET" and e.a in ("OK", "YIELD"):
                     in_feed = p.atoms.get("transition is None") is not True and p.atoms.get("is_start") is not True
+                    if in_feed and e.a == "OK" and e.b == "cond" and i >= 1 and evs[i - 1].kind == "CMP_END":
+                        # F-109: a template that consumes the transition's byte itself before it leaves for another state (an append-character that overflows hands its
+                        # handler the NEXT byte): the chunk-end return of a complete consuming step - state stored, pointer advanced exactly once (here, unless the
+                        # transition body already did: `_advances_before_actions`), byte reloaded, re-dispatch. Nothing is lost or replayed on re-entry.
+                        adv_here = i >= 2 and evs[i - 2].kind == "ADV"
+                        # `_advances_before_actions(transition)` is inlined by the enumerator: EARLY and not immediate_done, from the same atoms the transition body uses
+                        from ..tmpl import TBPath
+                        tbp = TBPath(p, [])
+                        imm = tbp.immediate_done()
+                        early = None if tbp.get("EARLY") is None or (tbp.get("EARLY") is True and imm is None) else (tbp.get("EARLY") is True and imm is False)
+                        tail = [x.kind for x in evs[i + 1:i + 3]]
+                        ok = early is not None and adv_here != early and tail == ["RELOAD", "GOTO"] and evs[i + 2].a == "repeatswitch" and \
+                            any(x.kind in ("SETSTATE", "SETSTATE_RAW") for x in evs[:i]) and p.atoms.get("transition.is_fallthrough") is False and p.atoms.get("is_end") is False
+                        rep.check(ok, "C02.j", ACT, f"{cl}: consuming hand-over (advance once, chunk-end test, reload, re-dispatch) [early={early}]",
+                                  f"{cl}'s template returns OK at the chunk end without being a complete consuming step (store, exactly one advance, reload, goto repeatswitch, consuming feed-time "
+                                  "transitions only): a byte is lost or replayed when the parser is re-entered", extra={"lines": [x.text() for x in fp.lines(p)]})
+                        continue
                     if in_feed:
                         feed_returns_nonfinal = True
+        if cl == "AppendCharTo":
+            # F-109: the byte of a consuming transition was matched by the statement in front of the append: on overflow the handler must start at the NEXT byte
+            n_over = 0
+            for p in fp.paths:
+                # (an atom the template never evaluated means it does not distinguish that case: the same text is emitted on consuming feed-time transitions too)
+                if (p.end and p.end[0] == "raise") or p.atoms.get("transition is None") is not False or p.atoms.get("transition.is_fallthrough") is True or p.atoms.get("is_end") is True:
+                    continue
+                evs = [e for e in events_of(fp.lines(p)) if e.kind != "COMMENT"]
+                g = next((i for i, e in enumerate(evs) if e.kind == "GUARD_CAP"), None)
+                if g is None:
+                    continue
+                arm = []
+                for e in evs[g + 1:]:
+                    if e.kind == "CLOSE":
+                        break
+                    arm.append(e.kind)
+                n_over += 1
+                rep.check("RELOAD" in arm and "CMP_END" in arm and arm[-1:] == ["GOTO"], "C02.j", ACT, "AppendCharTo overflow on a consuming transition: the handler is given the next byte",
+                          "an append-character that overflows on a consuming transition stores the handler state and re-dispatches the SAME byte, which the statement in front of the append has "
+                          "already matched: the handler sees it a second time (`try { \"xa\"; s += [q]; \"b\"; } catch (outofspace) { \"a\"; }` accepts \"xa!\"), and inside a loop feed() "
+                          "never returns (`loop { \"a\"; try { s += [q]; \"c\"; } catch { } }` on \"aa\")")
+            rep.check(n_over >= 1, "C02.j", ACT, f"{n_over} overflow arm(s) of AppendCharTo on consuming transitions examined", "no overflow arm of AppendCharTo found on consuming-transition paths")
         owner, const = model.const_return(cl, "may_return_early")
         declared = None
         if const is not None and isinstance(const, ast.Constant):
